@@ -138,7 +138,9 @@ ApiFails(ev, before) ==
           {F_("note", <<"state after the call differs from the abstract data type", ev.kind, ev.arg>>, "api-effect-diff")} \cup
           (IF diffOf(LAMBDA e : e.p) THEN {F_("C04", <<"row polarities stored by the circuit differ from those given", ev.kind>>, "api-state-polarity")} ELSE {}) \cup
           (IF diffOf(LAMBDA e : <<e.f, e.ob>>) \/ ev.circ.rows # exp.rows
-           THEN {F_("C15", <<"fixed / obstruction flags or rows stored by the circuit differ from those given", ev.kind>>, "api-state-flags")} ELSE {}) \cup
+           THEN {F_("C15", <<"fixed / obstruction flags or rows stored by the circuit differ from those given", ev.kind>>, "api-state-flags"),
+                 \* legality (C01) is stated over the fixed obstructions and the rows the caller declared
+                 F_("C01", <<"fixed / obstruction flags or rows stored by the circuit differ from those given", ev.kind>>, "api-state-flags")} ELSE {}) \cup
           (IF diffOf(LAMBDA e : <<e.x, e.y, e.w, e.h, e.o>>) \/ pins(ev.circ) # pins(exp)
            THEN {F_("C09", <<"geometry or pins stored by the circuit differ from those given", ev.kind>>, "api-state-geometry")} ELSE {}) \cup
           (IF wts(ev.circ) # wts(exp) THEN {F_("C17", <<"net weights stored by the circuit differ from those given", ev.kind>>, "api-state-weights")} ELSE {})
